@@ -1,7 +1,7 @@
 //! C08 — Supported date range: closed outside 1900..9999, results never leave it.
 //!
 //! Boundary family B (every alphabet value whose selectors straddle an end of the range, alone
-//! and combined with every time value, plus E1's one-kind part) × an alphabet of 17 instants
+//! and combined with every time value, plus E1's one-kind part) × an alphabet of 23 instants
 //! around and far outside both bounds × all ordered pairs of them as `iter_range` windows.
 //! Oracle: the statement, literally, with the pointwise oracle P (full window) for "the first
 //! instant from 1900-01-01T00:00 on at which the expression is not closed".
@@ -43,8 +43,16 @@ pub fn instant_alphabet() -> Vec<NaiveDateTime> {
         hms(ymd(10000, 1, 1), 0, 1, 0, 0),
         hms(ymd(10001, 6, 1), 12, 0, 0, 0),
         hms(ymd(262142, 12, 31), 0, 0, 0, 0),
-        // NaiveDateTime::MAX itself makes `state` overflow (t + 1 minute): totality is C04's subject
         NaiveDateTime::MAX - Duration::days(1),
+        NaiveDateTime::MAX,
+        // years far outside the range that alias supported years under 16-bit truncation (the
+        // selectors handle years as u16): 2020 − 65536, 1900 − 65536, 9999 − 65536, 2020 − 3·65536,
+        // 2020 + 65536
+        hms(ymd(2020 - 65536, 6, 15), 11, 0, 0, 0),
+        hms(ymd(1900 - 65536, 1, 1), 0, 0, 0, 0),
+        hms(ymd(9999 - 65536, 12, 31), 23, 59, 0, 0),
+        hms(ymd(2020 - 3 * 65536, 2, 29), 12, 0, 0, 0),
+        hms(ymd(2020 + 65536, 6, 15), 11, 0, 0, 0),
     ]
 }
 
@@ -72,7 +80,7 @@ pub fn check_item(it: &Item, c: &Ctx, budget: u64, acc: &mut Acc) {
     }
     let ts = instant_alphabet();
     // (1) schedule_at outside the range is empty / all closed
-    for d in [NaiveDate::MIN, ymd(1899, 12, 31), ymd(10000, 1, 1), ymd(10000, 1, 2), NaiveDate::MAX] {
+    for d in [NaiveDate::MIN, ymd(1899, 12, 31), ymd(10000, 1, 1), ymd(10000, 1, 2), NaiveDate::MAX, ymd(2020 - 65536, 6, 15), ymd(2020 + 65536, 6, 15), ymd(9999 - 65536, 12, 31), ymd(2020 - 3 * 65536, 2, 29), ymd(1900 + 65536, 1, 1)] {
         acc.add("evaluations", 1);
         match catch(|| oh.schedule_at(d).into_iter().map(|r| kind_code(r.kind)).collect::<Vec<_>>()) {
             Ok(ks) if ks.iter().all(|k| *k == 0) => acc.add("traces_validated_against_impl", 1),
@@ -260,7 +268,7 @@ pub fn run(cfg: &Cfg) -> Outcome {
     o.exhaustive = true;
     o.cov("family_size", json!(items.len()));
     o.cov("instant_alphabet", json!(instant_alphabet().iter().map(|t| fmt_dt(*t)).collect::<Vec<_>>()));
-    o.cov("rule", json!("exhaustive over the boundary family × the 17-instant alphabet: schedule_at outside the range is closed; state/next_change at every instant against P over all 2 958 466 days (closed outside, never ≥ 10000-01-01, from before 1900 the first non-closed instant); every ordered pair of instants as an iter_range window (289 per expression-context) and iter_from from every instant: every interval inside [from, min(to, 10000-01-01)] and the first 60 intervals equal to P. states = (expr, ctx, instant), transitions = windows explored; non-trivial = P has more than one run"));
+    o.cov("rule", json!("exhaustive over the boundary family × the 23-instant alphabet: schedule_at outside the range is closed; state/next_change at every instant against P over all 2 958 466 days (closed outside, never ≥ 10000-01-01, from before 1900 the first non-closed instant); every ordered pair of instants as an iter_range window (529 per expression-context) and iter_from from every instant: every interval inside [from, min(to, 10000-01-01)] and the first 60 intervals equal to P. states = (expr, ctx, instant), transitions = windows explored; non-trivial = P has more than one run"));
     o.assume("P uses the real schedule_at; NaiveDateTime::MAX itself is left to C04 (state adds one minute to its argument)");
     o
 }
